@@ -40,6 +40,9 @@ func c06Oracle(sp *Spec, x *X, res *mcrt.Result) (string, string) {
 		case strings.HasPrefix(c.Op, "prio") && c.Res != "skipped":
 			fmt.Sscanf(c.Op, "prio%d(%d,%t)", &b, &v, &lazy)
 			changes[b] = append(changes[b], prioChange{c.Inv, c.Ret, v, lazy})
+		case strings.HasPrefix(c.Op, "setprio") && c.Res != "skipped":
+			fmt.Sscanf(c.Op, "setprio%d(%d)", &b, &v)
+			changes[b] = append(changes[b], prioChange{c.Inv, c.Ret, v, false})
 		}
 	}
 	begin := func(k int) int { return x.CycleStart(frames, k) }
@@ -182,6 +185,21 @@ func c06Programs(tier string) []*Spec {
 		}
 	}
 	// a priority change addressed to a bar that has already completed (and stays on screen)
+	for _, how := range []string{"bar", "bar-abort"} {
+		// (*Bar).SetPriority on a bar that has completed / was aborted and is still displayed
+		sp := &Spec{Name: "c06-setpriority-after-" + how, Refresh: "manual", Q: -1}
+		for i := 0; i < 3; i++ {
+			sp.Bars = append(sp.Bars, BarSpec{Total: 1})
+			sp.Main = append(sp.Main, Op{K: "add", B: i})
+		}
+		end := Op{K: "incr", B: 0, N: 1}
+		if how == "bar-abort" {
+			end = Op{K: "abort", B: 0}
+		}
+		sp.Main = append(sp.Main, Op{K: "setprio", B: 1, N: 5}, Op{K: "refresh"}, end, Op{K: "refresh"}, Op{K: "refresh"}, Op{K: "refresh"},
+			Op{K: "setprio", B: 0, N: 9}, Op{K: "refresh"}, Op{K: "refresh"}, Op{K: "refresh"}, Op{K: "incr", B: 1, N: 1}, Op{K: "incr", B: 2, N: 1}, Op{K: "refresh"}, Op{K: "refresh"})
+		out = append(out, sp)
+	}
 	for _, lazy := range []bool{false, true} {
 		sp := &Spec{Name: fmt.Sprintf("c06-after-complete-%v", lazy), Refresh: "manual", Q: -1}
 		for i := 0; i < 3; i++ {
